@@ -152,4 +152,83 @@ fn lookup_props(lookup: Lookup) -> u32 {
 #[allow(unused_imports, dead_code, missing_docs)]
 pub mod verif_hooks {
     use super::*;
+    use crate::hb::face::hb_font_t;
+    use ttf_parser::{GlyphId, LazyArray16};
+
+    /// A coverage table over a raw payload (format 1: u16 glyph ids; format 2: 6-byte range records), built
+    /// from the public enum so that NO validation stands between the bytes and the code under test.
+    pub fn coverage_from(format: u16, payload: &[u8]) -> Option<Coverage<'_>> {
+        match format {
+            1 => Some(Coverage::Format1 {
+                glyphs: LazyArray16::new(payload),
+            }),
+            2 => Some(Coverage::Format2 {
+                records: LazyArray16::new(payload),
+            }),
+            _ => None,
+        }
+    }
+
+    fn masks(d: &hb_set_digest_t) -> [u64; 3] {
+        crate::hb::set_digest::verif_hooks::Digest(d.clone()).masks()
+    }
+
+    /// The real `CoverageExt::collect` on a digest that starts with the given masks.
+    pub fn coverage_collect(format: u16, payload: &[u8], start: [u64; 3]) -> Option<[u64; 3]> {
+        let cov = coverage_from(format, payload)?;
+        let mut d = crate::hb::set_digest::verif_hooks::Digest::from_masks(start).0;
+        cov.collect(&mut d);
+        Some(masks(&d))
+    }
+
+    /// `Coverage::get` (what every subtable asks before it applies).
+    pub fn coverage_get(format: u16, payload: &[u8], g: u16) -> Option<Option<u16>> {
+        Some(coverage_from(format, payload)?.get(GlyphId(g)))
+    }
+
+    /// The digest of every lookup of GSUB / GPOS as `SubstLookup::parse` / `PositioningLookup::parse` built it.
+    pub fn lookup_digests(face: &hb_font_t, gpos: bool) -> Vec<[u64; 3]> {
+        if gpos {
+            face.gpos
+                .as_ref()
+                .map(|t| t.lookups.iter().map(|l| masks(&l.set_digest)).collect())
+                .unwrap_or_default()
+        } else {
+            face.gsub
+                .as_ref()
+                .map(|t| t.lookups.iter().map(|l| masks(&l.set_digest)).collect())
+                .unwrap_or_default()
+        }
+    }
+
+    /// For every lookup: the glyphs of `0..num_glyphs` that the coverage of at least one subtable reports
+    /// (`coverage().get(g).is_some()`), i.e. the positions where the lookup could act.
+    pub fn lookup_covered(face: &hb_font_t, gpos: bool, num_glyphs: u16) -> Vec<Vec<u16>> {
+        let pick = |covs: Vec<Coverage>| -> Vec<u16> {
+            (0..num_glyphs)
+                .filter(|g| covs.iter().any(|c| c.get(GlyphId(*g)).is_some()))
+                .collect()
+        };
+        if gpos {
+            face.gpos
+                .as_ref()
+                .map(|t| {
+                    t.lookups
+                        .iter()
+                        .map(|l| pick(l.subtables.iter().map(|s| s.coverage()).collect()))
+                        .collect()
+                })
+                .unwrap_or_default()
+        } else {
+            face.gsub
+                .as_ref()
+                .map(|t| {
+                    t.lookups
+                        .iter()
+                        .map(|l| pick(l.subtables.iter().map(|s| s.coverage()).collect()))
+                        .collect()
+                })
+                .unwrap_or_default()
+        }
+    }
 }
